@@ -466,6 +466,77 @@ fn c07_encoder_any_code_lengths() {
     kani::cover!(n0 == 3 && n1 >= 17);
 }
 
+fn encoder_code_lengths<const N0: u8, const N1: u8>() {
+    // as c07_encoder_any_code_lengths with the two code-word lengths fixed (bits symbolic): shift
+    // amounts are concrete, which keeps the query small
+    let mut h = HUF;
+    let b0: u32 = kani::any();
+    let b1: u32 = kani::any();
+    kani::assume(b0 >> N0 == 0 && b1 >> N1 == 0);
+    let r0 = SymbolRepr { bits: b0, num_bits: N0 };
+    let r1 = SymbolRepr { bits: b1, num_bits: N1 };
+    h.nodes[0] = r0.to_node();
+    h.nodes[1] = r1.to_node();
+    let eof = h.get_node(EOF).unwrap_err();
+    let input = [0u8, 1u8];
+    let mut out = [0u8; 12];
+    let n = h.compress_impl_unsafe(&input[..], &mut out[..], false).unwrap();
+    let mut reference = [0u8; 12];
+    let mut nbits = 0usize;
+    ref_push(&mut reference, &mut nbits, r0);
+    ref_push(&mut reference, &mut nbits, r1);
+    ref_push(&mut reference, &mut nbits, eof);
+    assert!(n == (nbits + 7) / 8);
+    assert!(n == h.compressed_len(&input[..]));
+    let mut i = 0;
+    while i < 12 {
+        assert!(out[i] == if i < n { reference[i] } else { 0 });
+        i += 1;
+    }
+}
+
+#[kani::proof]
+#[kani::unwind(27)]
+fn c07_encoder_code_lengths_1_24() {
+    encoder_code_lengths::<1, 24>();
+}
+
+#[kani::proof]
+#[kani::unwind(27)]
+fn c07_encoder_code_lengths_7_17() {
+    encoder_code_lengths::<7, 17>();
+}
+
+#[kani::proof]
+#[kani::unwind(27)]
+fn c07_encoder_code_lengths_24_24() {
+    encoder_code_lengths::<24, 24>();
+}
+
+#[kani::proof]
+#[kani::unwind(27)]
+fn c07_encoder_code_lengths_8_16() {
+    encoder_code_lengths::<8, 16>();
+}
+
+#[kani::proof]
+#[kani::unwind(27)]
+fn c07_encoder_code_lengths_15_15() {
+    encoder_code_lengths::<15, 15>();
+}
+
+#[kani::proof]
+#[kani::unwind(27)]
+fn c07_encoder_code_lengths_3_20() {
+    encoder_code_lengths::<3, 20>();
+}
+
+#[kani::proof]
+#[kani::unwind(27)]
+fn c07_encoder_code_lengths_17_9() {
+    encoder_code_lengths::<17, 9>();
+}
+
 impl Huffman {
     /// access to the codec oracle's record from harnesses of other crates
     pub fn verif_oracle() -> &'static mut Oracle {
